@@ -255,6 +255,7 @@ type Sim struct {
 	maxG     int
 	now      int64 // virtual time, ns
 	spins    int   // consecutive forced yields with nothing else happening
+	recvCache map[unsafe.Pointer]int
 }
 
 // condState is the notify list of one sync.Cond: tickets are handed out in Wait (before the lock is released),
@@ -481,7 +482,30 @@ func (s *Sim) condOf(p unsafe.Pointer) *condState {
 	return c
 }
 
+// parkedReceivers counts the goroutines parked in a receive (or in a select with a receive case) on channel p.
+// The counts are cached per scheduler iteration: with thousands of goroutines a scan per query is quadratic.
 func (s *Sim) parkedReceivers(p unsafe.Pointer) int {
+	if s.recvCache == nil {
+		s.recvCache = map[unsafe.Pointer]int{}
+		for _, x := range s.gs {
+			if x.state == gWaitRecv {
+				s.recvCache[x.obj]++
+			}
+			if x.state == gWaitSelect {
+				seen := map[unsafe.Pointer]bool{}
+				for _, c := range x.cases {
+					if !c.Send && !seen[c.Ch] {
+						seen[c.Ch] = true
+						s.recvCache[c.Ch]++
+					}
+				}
+			}
+		}
+	}
+	return s.recvCache[p]
+}
+
+func (s *Sim) parkedReceiversSlow(p unsafe.Pointer) int {
 	n := 0
 	for _, x := range s.gs {
 		if x.state == gWaitRecv && x.obj == p {
@@ -590,6 +614,7 @@ func (s *Sim) loop() {
 	raceDisable() // for the lifetime of the scheduler goroutine
 	for {
 		r := <-s.reqCh
+		s.recvCache = nil
 		g := s.running
 		soft := true
 		forceSwitch := false
@@ -831,6 +856,7 @@ func (s *Sim) loop() {
 		if !forceSwitch {
 			s.spins = 0
 		}
+		s.recvCache = nil
 		next := s.pick(g, soft)
 		if forceSwitch && next == g {
 			// a goroutine that yields the processor does not get it back while others can run (polling loops must make progress
